@@ -29,9 +29,30 @@ def run(chk, tier):
     chk.rule("R-UNLINK", "list removal updates both directions")
     nu = lists.list_unlink(chk, P, [], "distances.c")
     chk.floor("R-UNLINK", "removal sites of the distances list", nu, 1)
+    chk.rule("R-SENTINEL", "an invalid depth is rejected: with hwloc_get_depth_type() forced to its failure value (hwloc_obj_type_t)-1, every distances entry point that calls it "
+             "returns -1 with errno EINVAL and writes nothing (explored by seeded constant propagation with the callee's result forced)")
+    import peval
+    from prog import AnalysisBroken
+    nsn = 0
+    for f in P.unit("distances.c").funcs(only_main=True):
+        if f.entry is None or not list(f.calls("hwloc_get_depth_type")):
+            continue
+        nsn += 1
+        try:
+            out = peval.PathEval(P, f, {}, is_effect=atomic.topo_writes(E, arg_indices=(0,)), call_values={"hwloc_get_depth_type": 0xffffffff}, markers={"hwloc_get_depth_type"}, through_effects=True, dirty_paths=True, maxstates=40000).run()
+        except AnalysisBroken as ex:
+            chk.broke("R-SENTINEL: %s not evaluable (%s)" % (f.name, ex))
+            continue
+        # only the returns reached after the (failed) depth lookup are judged
+        rets = [t for t in out.terminals if t[0] == "return" and any(isinstance(x, frozenset) and "hwloc_get_depth_type" in x for x in t[5:])]
+        bad = [t for t in rets if not (t[1] == -1 and str(t[2]) == str(peval.EINVAL) and not t[-1])]
+        chk.inst("R-SENTINEL", f, "invalid-depth", bool(rets) and not bad, "with hwloc_get_depth_type() == (hwloc_obj_type_t)-1 every return is -1/EINVAL with nothing written (%d returns explored%s)" % (
+            len(rets), "" if not bad else "; offending: value %s errno %s dirty %s at %s" % (bad[0][1], bad[0][2], bad[0][-1], bad[0][3])))
+    chk.floor("R-SENTINEL", "distances entry points taking a depth", nsn, 2)
     chk.rule("R-ATOMIC", "argument failures of the add steps happen before the list is linked")
     atomic.check(chk, P, E, "hwloc_distances_add_create", "distances.c", atomic.topo_writes(E, arg_indices=(0,), ignore_paths=("next_dist_id",)), only_errno=22)
-    chk.decided += ["invalid kinds / unknown flags rejected with EINVAL before any effect (all words)", "*nr reports the number of matches even when the array is smaller (capacity dataflow)",
+    chk.decided += ["an invalid depth (hwloc_get_depth_type failure) is rejected with EINVAL before anything is removed or returned",
+                    "invalid kinds / unknown flags rejected with EINVAL before any effect (all words)", "*nr reports the number of matches even when the array is smaller (capacity dataflow)",
                     "bulk copies/compares of distances arrays have the allocation's extent", "transforms keep every non-switch object (guarded kill)",
                     "returned structures reference objects of this topology: every reader refreshes first; file/buffer export agree"]
     chk.undecided += ["exact sub-matrix extraction after restrict (index arithmetic)", "grouping results"]
